@@ -36,15 +36,23 @@ import (
 //go:embed baseline_funcs.txt
 var baselineFuncsTxt string
 
-var baselineFuncs = func() map[string]bool {
-	m := map[string]bool{}
+// baselineFuncs: the functions of the reference tree; baselineLitSig: for a function literal, its
+// signature there (a literal is named by its ordinal within its parent, so a literal of another
+// shape under the same name is a different literal).
+var baselineFuncs, baselineLitSig = func() (map[string]bool, map[string]string) {
+	m, sig := map[string]bool{}, map[string]string{}
 	for _, l := range strings.Split(baselineFuncsTxt, "\n") {
 		l = strings.TrimSpace(l)
-		if l != "" && !strings.HasPrefix(l, "#") {
-			m[l] = true
+		if l == "" || strings.HasPrefix(l, "#") {
+			continue
 		}
+		if i := strings.Index(l, "\t"); i >= 0 {
+			sig[l[:i]] = l[i+1:]
+			l = l[:i]
+		}
+		m[l] = true
 	}
-	return m
+	return m, sig
 }()
 
 func setUnexported(obj any, field string, val any) {
@@ -133,11 +141,15 @@ func isNewFunc(f *ssa.Function) bool {
 	if _, ok := forceTransparent[fnName(f)]; ok {
 		return true
 	}
+	if s, ok := baselineLitSig[fnName(f)]; ok && f.Parent() != nil && s != f.Signature.String() {
+		return true
+	}
 	return !baselineFuncs[fnName(f)]
 }
 
 type inliner struct {
 	touched  map[*ssa.Function]bool
+	dropped  map[*ssa.Function]bool
 	e        *Eng
 	newFuncs map[*ssa.Function]bool
 	recCache map[*ssa.Function]bool
@@ -701,7 +713,7 @@ func rebuildReferrers(g *ssa.Function) {
 
 // inlineNewHelpers makes every function that is not in the reference tree transparent.
 func (e *Eng) inlineNewHelpers(all map[*ssa.Function]bool) {
-	il := &inliner{e: e, newFuncs: map[*ssa.Function]bool{}, recCache: map[*ssa.Function]bool{}, touched: map[*ssa.Function]bool{}}
+	il := &inliner{e: e, newFuncs: map[*ssa.Function]bool{}, recCache: map[*ssa.Function]bool{}, touched: map[*ssa.Function]bool{}, dropped: map[*ssa.Function]bool{}}
 	var mod []*ssa.Function
 	for f := range all {
 		if !strings.HasPrefix(fnPkgPath(f), Mod) || len(f.Blocks) == 0 {
@@ -769,6 +781,27 @@ func (e *Eng) inlineNewHelpers(all map[*ssa.Function]bool) {
 	}
 	for g := range il.touched {
 		simplifyCFG(g)
+		// a local helper literal whose every call has been replaced by its body is gone: the closure
+		// value is built for nobody, and the variables it captured are the host's own again
+		dropped := false
+		for _, b := range g.Blocks {
+			var keep []ssa.Instruction
+			for _, in := range b.Instrs {
+				if mc, ok := in.(*ssa.MakeClosure); ok {
+					if f, _ := mc.Fn.(*ssa.Function); f != nil && il.newFuncs[f] && (mc.Referrers() == nil || len(*mc.Referrers()) == 0) {
+						e.InlineLog = append(e.InlineLog, "literal "+fnName(f)+" is called nowhere any more, dropped from "+fnName(g))
+						il.dropped[f] = true
+						dropped = true
+						continue
+					}
+				}
+				keep = append(keep, in)
+			}
+			b.Instrs = keep
+		}
+		if dropped {
+			rebuildReferrers(g)
+		}
 	}
 	// a literal defined in a helper that now lives in exactly one caller is that caller's literal
 	for _, f := range mod {
@@ -784,7 +817,9 @@ func (e *Eng) inlineNewHelpers(all map[*ssa.Function]bool) {
 			for _, b := range g.Blocks {
 				for _, in := range b.Instrs {
 					if mc, ok := in.(*ssa.MakeClosure); ok && mc.Fn == ssa.Value(f) {
-						n++
+						if host != g {
+							n++
+						}
 						host = g
 					}
 				}
@@ -823,6 +858,9 @@ func (e *Eng) inlineNewHelpers(all map[*ssa.Function]bool) {
 		}
 	}
 	e.absorbed = map[*ssa.Function]bool{}
+	for f := range il.dropped {
+		e.absorbed[f] = true
+	}
 	for f := range il.newFuncs {
 		if f.Parent() != nil {
 			continue // literals stay with their parent
